@@ -209,7 +209,10 @@ fn run_scenario(key: &str, s: &Scenario, kind: &str, r: &mut Rng) -> Value {
     }).collect();
     let xs = eval_points(r, &s.t);
     // abscissas of the three kinds
-    let absc: Vec<Number> = xs.iter().enumerate().map(|(q, x)| match q % 3 {
+    // (float abscissae only on a seconds axis: there the piecewise-polynomial ORACLE, expanded in powers of x ~ 1e9, is not
+    //  accurate enough for the first / second derivative factors a dual abscissa brings in; values are)
+    let huge = s.t[s.t.len() - 1].abs() > 1e6;
+    let absc: Vec<Number> = xs.iter().enumerate().map(|(q, x)| match if huge { 0 } else { q % 3 } {
         0 => Number::F64(*x),
         1 => Number::Dual(Dual::try_new(*x, vec!["x".to_string(), "w".to_string()], vec![1.0, r.uniform(-1.0, 1.0)]).unwrap()),
         _ => Number::Dual2(Dual2::try_new(*x, vec!["x".to_string(), "w".to_string()], vec![1.0, r.uniform(-1.0, 1.0)], vec![0.0, 0.25, 0.25, r.uniform(-0.5, 0.5)]).unwrap()),
@@ -308,7 +311,10 @@ pub fn solve(seed: u64, n: usize, out: &str) {
     let wd = Watchdog::start(out, 60);
     let mut r = Rng::new(seed ^ 0xC15);
     for i in 0..n {
-        let k = 2 + r.below(5) as usize; // orders 2..6
+        let mut k = 2 + r.below(5) as usize; // orders 2..6
+        if i % 5 == 4 && r.chance(0.7) {
+            k = 4; // the seconds axis is where cubic curve splines live
+        }
         // interior knots (simple, or repeated where the site layout allows it)
         // one scenario in five lives on an x-axis in SECONDS (knots years apart: 3e7 .. 1e9), the way the library's own
         // curve splines are indexed by timestamps; derivative rows of the collocation matrix are then ~1e-16
@@ -318,20 +324,23 @@ pub fn solve(seed: u64, n: usize, out: &str) {
         let mut cur = a;
         let p = 1 + r.below(5) as usize;
         let mut interior = vec![];
-        let choice = r.below(8);
+        // (on the seconds axis mostly the natural / clamped cubic layouts, whose end rows are second / first derivatives)
+        let choice = if i % 5 == 4 && k == 4 && r.chance(0.7) { 2 + r.below(2) } else { r.below(8) };
         // the site layouts built from the Greville abscissae also admit REPEATED interior knots (multiplicity up to
         // k - 1: the spline stays continuous); the other layouts place their sites by the interior knots or evenly, which
         // is admissible for simple knots only
         let repeats_ok = [0u64, 1, 6, 7].contains(&choice) && k >= 3;
         for _ in 0..p {
-            cur += r.uniform(0.4, 2.0) * sc;
-            let mult = if repeats_ok && r.chance(0.3) { 2 + r.below((k - 2) as u64) as usize } else { 1 };
+            cur += if sc > 1.0 { r.uniform(0.4, 12.0) } else { r.uniform(0.4, 2.0) } * sc;
+            // (double knots, orders up to 5: with triple knots at order 6 the oracle's expansion in powers of x is no
+            //  longer accurate to the tolerance asked of the code - seen under seed 7, the crate's answer was exact)
+            let mult = if repeats_ok && k <= 5 && r.chance(0.3) { 2 } else { 1 };
             for _ in 0..mult.min(k - 1) {
                 t.push(cur);
             }
             interior.push(cur);
         }
-        cur += r.uniform(0.4, 2.0) * sc;
+        cur += if sc > 1.0 { r.uniform(0.4, 12.0) } else { r.uniform(0.4, 2.0) } * sc;
         let b = cur;
         for _ in 0..k {
             t.push(b);
@@ -400,7 +409,8 @@ pub fn solve(seed: u64, n: usize, out: &str) {
             _ => (greville(&t, k), 0, 0, false, "one-site-per-coefficient"),
         };
         // data: from a polynomial of degree < k (half of the cases), otherwise arbitrary
-        let use_poly = r.coin() && layout != "mismatch";
+        // (seconds axis: data from a polynomial, so that the solved spline is pinned down by reproduction)
+        let use_poly = (r.coin() || sc > 1.0) && layout != "mismatch";
         // (coefficients in x / sc, so that the data stay of order one on the seconds axis too)
         let poly: Vec<f64> = if use_poly { (0..(1 + r.below(k as u64) as usize)).map(|d| r.uniform(-1.0, 1.0) / sc.powi(d as i32)).collect() } else { vec![] };
         let pd = |x: f64, m: usize| -> f64 {
@@ -416,12 +426,19 @@ pub fn solve(seed: u64, n: usize, out: &str) {
             yv[0] = pd(tau[0], left_n);
             let last = yv.len() - 1;
             yv[last] = pd(tau[last], right_n);
+        } else if !yv.is_empty() {
+            // arbitrary data: an end condition on the m-th derivative is given in units of x^-m
+            yv[0] /= sc.powi(left_n as i32);
+            let last = yv.len() - 1;
+            yv[last] /= sc.powi(right_n as i32);
         }
         if layout == "mismatch" && r.coin() && !yv.is_empty() {
             yv.pop(); // tau and y of different lengths
         }
         let s = Scenario { k, t, tau, yv, left_n, right_n, lsq, layout, poly };
-        let kind = *r.pick(&["F", "D1", "D2"]);
+        // float data on the seconds axis: there the sensitivity to an end-DERIVATIVE datum is of order 1e8 and the solver's
+        // row scaling (not a property of the code under test) limits it to ~1e-8 relative, beyond the 1e-9 this check asks for
+        let kind = if sc > 1.0 { "F" } else { *r.pick(&["F", "D1", "D2"]) };
         let key = format!("spline/{}/{}/{}", layout, kind, i);
         wd.enter(&key);
         let v = run_scenario(&key, &s, kind, &mut r);
